@@ -48,7 +48,8 @@ func init() {
 			{Name: "WIDEN-FIRST", What: "in the decoders (bam, sam, cram, csi, tabix, internal, bgzf) a count taken from the input is widened before it enters +, * or <<: no such arithmetic in an unsigned type of 32 bits or fewer feeds an int conversion or a slice bound (added after sixth-round seeds C11-g, C11-h, C05-g)", Floor: 1, Run: ruleWidenFirst([]string{"bam", "sam", "cram", "csi", "tabix", "internal", "bgzf"}, "decoders")},
 			{Name: "CIGAR-SCAN", What: "sam.ParseCigar returns when its scan for the operation letter runs off the end of the text (a length without letter)", Floor: 1, Run: ruleCigarScan},
 			{Name: "NIL-AUX", What: "no method is called on the possibly nil result of AuxFields.Get without a nil test, also through helpers it is handed to", Floor: 1, Run: ruleNilAux},
-			{Name: "IDX-SIGN", What: "in the index packages an index taken from the record (the result of an interface call such as RefID()) is shown non-negative before it is used", Floor: 2, Run: ruleIdxSign},
+			{Name: "IDX-SIGN", What: "in the index packages an index taken from the record (the result of an interface call such as RefID()) is shown non-negative before it is used; and in the exported methods with an ok or error result an index or slice bound computed from an integer parameter is shown in range (ReferenceStats(id), Chunks with a negative start)", Floor: 6, Run: ruleIdxSign},
+			{Name: "REG2BINS-RANGE", What: "csi.reg2bins shows beg ≥ 0, end > beg and end ≤ a power of two before it shifts them into uint32 bin numbers and walks them with an unsigned counter: bounded time for every query (shared with C04)", Floor: 3, Run: ruleReg2binsRange},
 			{Name: "BIN-WIDTH", What: "every binary.ByteOrder UintN/PutUintN call gets at least N/8 bytes: known slice length, constant difference of bounds, or a helper that returns n bytes or nil whose nil conditions the caller has excluded", Floor: 20, Run: ruleBinWidth},
 			{Name: "DST-FITS", What: "every hex.Decode in the library writes into a destination made for its source, or into a fixed array under a dominating bound on the source's decoded length", Floor: 3, Run: ruleDstFits},
 			{Name: "SHIFT-FITS", What: "in csi.ReadFrom every shift by a computed amount (a function of the decoded depth) is bounded below the width of the shifted type", Floor: 1, Run: ruleShiftFits},
